@@ -157,6 +157,9 @@ def detectencoding_str(input, final=False):  # noqa: C901
                 if pos >= 0:
                     # TODO: return str and not bytes!
                     return (charsinput[len(prefix) : pos], True)
+            elif not prefix.startswith(charsinput):
+                # cannot become a charset rule anymore
+                return ("utf-8", False)
     # if this is the last call, and we haven't determined an encoding yet,
     # we default to UTF-8
     if final:
